@@ -83,35 +83,43 @@ inductive PR where
   | fail (errno : Nat) (fatal : Fatal)
   deriving Repr, DecidableEq
 
+/-- D16 test applied to the low text and, when a `-` was found, to the high text -/
+def boundsOk (str : Str) : Option Str → Bool
+  | some t => boundTextOk str && boundTextOk t
+  | none => boundTextOk str
+
+/-- `hi = (p && *p) ? strtoul(p, &q, 10) : lo`: the high part is parsed only when non-empty -/
+def hiPartOf : Option Str → Option Strtoul
+  | some (c :: t) => some (strtoul (c :: t))
+  | _ => none
+
+/-- the last two tests of `_parse_single_range`: order, size -/
+def rangeCheck (errno width lo hi : Nat) (clamped : Bool) : PR :=
+  if lo > hi then .fail EINVAL .invalidRange
+  else if rangeTooBig lo hi || (erangeRejected && clamped) then .fail ERANGE .tooMany
+  else .ok ⟨lo, hi, width⟩ errno
+
 /-- `_parse_single_range(str, &range)`; `errno` is threaded because a stale value can surface
     later (`_parse_range_list` returns -1 without setting it when there are too many ranges) -/
 def parseSingleRange (errno : Nat) (s : Str) : PR :=
   match cutAt '-' s with
   | (str, p) =>
     if (p.bind List.head?) = some '-' then .fail EINVAL .invalidRange   -- "do NOT allow negative numbers"
-    else if !(boundTextOk str && (match p with | some t => boundTextOk t | none => true)) then
-      .fail EINVAL .invalidRange
+    else if !boundsOk str p then
+      .fail EINVAL .invalidRange                                        -- (D16 switch; never fires)
+    else if !(strtoul str).converted then .fail EINVAL .invalidRange    -- q == str
     else
-      let l := strtoul str
-      let e1 := if l.erange then ERANGE else errno
-      if !l.converted then .fail EINVAL .invalidRange                   -- q == str
-      else
-        -- hi = (p && *p) ? strtoul(p, &q, 10) : lo
-        let hiPart : Option Strtoul :=
-          match p with
-          | some (c :: t) => some (strtoul (c :: t))
-          | _ => none
-        let hi := match hiPart with | some r => r.val | none => l.val
-        let e2 := match hiPart with | some r => (if r.erange then ERANGE else e1) | none => e1
-        -- q == p || *q != '\0'   (q still points into the low part when no high part was parsed)
-        let bad := match hiPart with
-          | some r => !r.converted || !r.rest.isEmpty
-          | none => !l.rest.isEmpty
-        let clamped := l.erange || (match hiPart with | some r => r.erange | none => false)
-        if bad then .fail EINVAL .invalidRange
-        else if l.val > hi then .fail EINVAL .invalidRange
-        else if rangeTooBig l.val hi || (erangeRejected && clamped) then .fail ERANGE .tooMany
-        else .ok ⟨l.val, hi, str.length⟩ e2
+      match hiPartOf p with
+      | some r =>
+        -- q == p || *q != '\0'
+        if !r.converted || !r.rest.isEmpty then .fail EINVAL .invalidRange
+        else rangeCheck (if r.erange then ERANGE else if (strtoul str).erange then ERANGE else errno)
+               str.length (strtoul str).val r.val ((strtoul str).erange || r.erange)
+      | none =>
+        -- no high part: q still points into the low part, `*q != '\0'` tests ITS remainder
+        if !(strtoul str).rest.isEmpty then .fail EINVAL .invalidRange
+        else rangeCheck (if (strtoul str).erange then ERANGE else errno)
+               str.length (strtoul str).val (strtoul str).val (strtoul str).erange
 
 /-! ### `_parse_range_list` -/
 inductive PRL where
